@@ -37,6 +37,13 @@ class Unpicklable:
         raise TypeError('vlab: planned unpicklable object')
 
 
+class UnpicklableBase:
+    """Pickling this raises a BaseException that is not an Exception."""
+
+    def __reduce__(self):
+        raise SystemExit(3)
+
+
 def canon(v):
     """Canonical JSON-able form of a parameter value (harness-owned)."""
     from enum import Enum
@@ -86,7 +93,7 @@ def shape_value(value, shape):
         return {'v': value, 'l': [value, (1, 2.5, None, 'x')], 'd': {'k': [list(value)]}}
     if shape.startswith('unpicklable'):
         depth = int(shape.split(':')[1]) if ':' in shape else 0
-        obj = Unpicklable()
+        obj = UnpicklableBase() if 'sysexit' in shape else Unpicklable()
         for i in range(depth):
             obj = {'pad': 'y' * 50, 'in': [i, obj]}
         if shape.startswith('unpicklable-big'):
